@@ -453,7 +453,7 @@ def run(ctx):
     tally.merge(fan_out(_task_family, ftasks, jobs=ctx.jobs, seed=ctx.seed))
     wtasks = [{"length": length, "ps": [p]} for length in ((3, 4) if ctx.quick else (3, 4, 5, 6)) for p in range(8 * length + 1)]
     tally.merge(fan_out(_task_walking, wtasks, jobs=ctx.jobs, seed=ctx.seed))
-    tally.merge(fan_out(_task_long, [{"lengths": [64]}, {"lengths": [4096]}, {"lengths": [65542]}], jobs=3))
+    tally.merge(fan_out(_task_long, [{"lengths": [64]}, {"lengths": [4096]}, {"lengths": [65542]}, {"lengths": [70001]}, {"lengths": [140000]}], jobs=5))
     depth = 3
     nops = len(_ops_for(64))
     htasks = [{"lengths": [3, 8, 16] if ctx.quick else [3, 6, 8, 16, 32], "firsts": [f], "depth": depth} for f in range(nops)]
@@ -473,7 +473,7 @@ def run(ctx):
                   "walking-1/walking-0 over every bit for lengths 3..%d; (c) aligned and unaligned reads on 64, 4096, 65542-byte buffers; "
                   f"(d) histories on ONE object: every sequence of {depth} reads over an alphabet of (position, width, kind) with the cursor set freely before each read, "
                   f"buffers of {'3, 8, 16' if ctx.quick else '3, 6, 8, 16, 32 bytes, and every sequence of 4 reads on 3'} bytes, cached header properties touched at varying points; "
-                  "(e) in a fresh interpreter: for every shape (pos mod 8 in 0..7, width 1..72, 80, 96, 127, 128) a failing over-read first, then in-range reads of that shape; (i) raw packet objects built from bytes, bytearray, memoryview, arrays of 1/2/4/8-byte items, a cast memoryview, a list of ints and another raw packet object, directly and through CCSDSPacket(raw_data=...), every position x 9 widths; (g) every (p, n) of a 3-byte buffer read on a worker thread; (h) kernel E-thread: every ordered pair of 11 reads on two raw packet objects by two threads at once, every interleaving of their accesses to the objects with at most 2 preemptions; (f) in a fresh interpreter: every (position 0..39, width 0..40) first used with an equal float / Fraction / Decimal / bool position and/or width (not judged), then with the integers" % (4 if ctx.quick else 6)),
+                  "(j) buffers of 70001 and 140000 bytes (longer than any single packet: combined segment groups) read whole and nearly whole at aligned and unaligned positions; (e) in a fresh interpreter: for every shape (pos mod 8 in 0..7, width 1..72, 80, 96, 127, 128) a failing over-read first, then in-range reads of that shape; (i) raw packet objects built from bytes, bytearray, memoryview, arrays of 1/2/4/8-byte items, a cast memoryview, a list of ints and another raw packet object, directly and through CCSDSPacket(raw_data=...), every position x 9 widths; (g) every (p, n) of a 3-byte buffer read on a worker thread; (h) kernel E-thread: every ordered pair of 11 reads on two raw packet objects by two threads at once, every interleaving of their accesses to the objects with at most 2 preemptions; (f) in a fresh interpreter: every (position 0..39, width 0..40) first used with an equal float / Fraction / Decimal / bool position and/or width (not judged), then with the integers" % (4 if ctx.quick else 6)),
         "rule": ("one evaluation = one read (int or bytes) of one (buffer, p, n); distinct non-trivial = distinct small buffers fully "
                  "swept plus distinct (length, p, n) windows swept over the content family"),
     }
